@@ -342,7 +342,12 @@ class ArgGen:
             if not body or body[-1] in "&|\\;" or body[0] == ";":
                 return None      # a dangling && / || is a chain without operand (SyntaxError by design)
             pad = self.pick([" ", " ", "   "])
-            return {"src": "rec!" + pad + raw + self.pick(["", " ", "  "]), "expect": [("rec", [body])], "labels": ["form:macro"], "ctx": {}}
+            f5 = unterminated_triple(raw)
+            if f5 and "C04-F5" in _state.get("open", ()) and self.k(4) != 0:
+                self.stats.excluded_known["C04-F5"] += 1
+                return None
+            return {"src": "rec!" + pad + raw + self.pick(["", " ", "  "]), "expect": [("rec", [body])], "labels": ["form:macro"], "ctx": {},
+                    "f5_shape": f5}
         args, labels, exp, meta = [], [], [], []
         for _ in range(1 + self.k(6)):
             a = self.arg()
@@ -458,6 +463,61 @@ def _parse_netstrings(data):
 _GLUE_ACTIVE = set("~$*?[")
 
 
+def unterminated_triple(text):
+    """Does a triple-quoted string literal open in text and never close (scanning the way a Python tokenizer does)?"""
+    i, n = 0, len(text)
+    while i < n:
+        c = text[i]
+        if c in "\"'":
+            if text.startswith(c * 3, i):
+                j = i + 3
+                while True:
+                    j = text.find(c * 3, j)
+                    if j < 0:
+                        return True
+                    # an escaped quote does not close
+                    k, bs = j - 1, 0
+                    while k >= i + 3 and text[k] == "\\":
+                        bs += 1
+                        k -= 1
+                    if bs % 2 == 0:
+                        break
+                    j += 1
+                i = j + 3
+                continue
+            j = i + 1
+            while j < n and text[j] != c:
+                j += 2 if text[j] == "\\" else 1
+            i = j + 1
+            continue
+        i += 1
+    return False
+
+
+def _f1_match(got, exp):
+    """F1: the backslash-newline inside the literal was taken for a line continuation and removed from the *source*;
+    the backslash that is left then escapes whatever follows (`\\<nl>b` -> `\b` -> backspace; `\\<nl>l` -> backslash l)."""
+    if got == exp.replace("\\\n", "\\"):
+        return True
+    if exp.count("\\\n") != 1:
+        return False
+    i = exp.index("\\\n")
+    rest = exp[i + 2:]
+    if not got.startswith(exp[:i]):
+        return False
+    for n in range(1, min(10, len(rest)) + 1):
+        head = rest[:n]
+        if any(c in head for c in "\"\\\n\r"):
+            break
+        try:
+            dec = ast.literal_eval('"\\' + head + '"')
+        except (SyntaxError, ValueError):
+            continue
+        if got[i:] == dec + rest[n:]:
+            return True
+    return False
+
+
 def classify(case, got, want):
     """Narrow predicates of recorded findings, evaluated on the failing case.
 
@@ -476,8 +536,7 @@ def classify(case, got, want):
             return None
         g2, w2 = got[1][1], want[1][1]
         if g2 != w2:
-            if got[0] == want[0] and len(w2) == 1 and len(g2) == 1 and "\\\n" in w2[0] \
-                    and g2[0] == w2[0].replace("\\\n", "\\"):
+            if got[0] == want[0] and len(w2) == 1 and len(g2) == 1 and "\\\n" in w2[0] and _f1_match(g2[0], w2[0]):
                 return "C04-F1"
             return None
     g, w = got[0][1], want[0][1]
@@ -514,8 +573,7 @@ def classify(case, got, want):
         if seg == exp:
             gi += len(exp)
             continue
-        if m["form"] == "form:triple" and len(exp) == 1 and len(seg) == 1 and "\\\n" in exp[0] \
-                and seg[0] == exp[0].replace("\\\n", "\\"):
+        if m["form"] == "form:triple" and len(exp) == 1 and len(seg) == 1 and "\\\n" in exp[0] and _f1_match(seg[0], exp[0]):
             reasons.add("C04-F1")
             gi += 1
             continue
@@ -548,6 +606,8 @@ def check_case(case, child_too=True):
     got = run_line(src, ctx)
     if isinstance(got, tuple):
         fid = "C04-F4" if (case.get("f4_shape") and got[0] in ("SyntaxError", "CalledProcessError", "XonshError")) else None
+        if fid is None and got[0] == "SyntaxError" and case.get("labels") == ["form:macro"] and unterminated_triple(case["src"][4:]):
+            fid = "C04-F5"
         return Failure("error:" + got[0], case, "line did not run: %s: %s" % got, finding=fid, bucket=fid or ("error:" + got[0]))
     if sorted(got) != sorted(want):
         fid = classify(case, got, want)
@@ -653,5 +713,6 @@ def replay(run, path):
     if fail is None:
         print("replay: property holds on this case")
         return 0
-    print("VIOLATION property=%s replay=%s kind=%s %s" % (PROP, path, fail.kind, fail.detail))
+    print("VIOLATION property=%s replay=%s kind=%s %s%s" % (PROP, path, fail.kind, fail.detail,
+                                                           "  [recorded finding %s]" % fail.finding if fail.finding else ""))
     return 1
